@@ -93,14 +93,36 @@ SwitchValRow(v) ==
    runs |-> <<[obj |-> <<>>, exp |-> [out |-> r1.out, calls |-> r1.calls, vars |-> r1.g]],
               [obj |-> <<>>, exp |-> [out |-> r2.out, calls |-> r2.calls, vars |-> r2.g]]>>, done |-> TRUE]
 
+\* ---- a regexp case and a value which is not a string ---------------------------------------------------
+\* The statement says a case "matches by regexp" and not what that means for a number or a boolean: "print"
+\* tests the printed form, "none" lets no regexp case match.  Each row carries the runs under both; an
+\* implementation must follow one of them - everywhere - and may never abort the run there.
+ReCaseVals == << I(200), I(404), I(503), I(301), F(9, 2), S(<<52, 48, 52>>), B(TRUE), N, I(-4), S(<<>>) >>
+ReCaseProg(v) ==
+  LET re(cps) == <<"lit", R(cps, "")>> IN
+  CASE v = 1 -> <<Switch(Ref("V"), <<Case(<<LitI(200)>>, <<T(1)>>), Case(<<re(<<94, 52>>)>>, <<T(2)>>), Case(<<re(<<94, 53>>)>>, <<T(3)>>), Default(<<T(9)>>)>>), Ret(Ref("V"))>>
+    [] v = 2 -> <<Switch(Ref("V"), <<Case(<<re(<<52, 36>>), LitI(301)>>, <<T(2)>>), Case(<<re(<<116, 114, 117>>)>>, <<T(3)>>)>>), T(4), Ret(LitI(0))>>
+    [] v = 3 -> <<ForEach("", "x", <<"arr", <<Ref("V"), LitS(<<52, 48, 52>>), LitI(404)>>>>, <<Switch(Ref("x"), <<Default(<<T(9)>>), Case(<<re(<<94, 52, 48>>)>>, <<T(2)>>)>>)>>), Ret(LitI(0))>>
+ReCaseRuns(prog, mode) ==
+  [i \in 1..Len(ReCaseVals) |->
+     LET r == RunProgramM(prog, <<>>, <<<<"V", ReCaseVals[i]>>>>, Host, Fuel, mode) IN
+     [obj |-> <<<<"V", ReCaseVals[i]>>>>, exp |-> [out |-> r.out, calls |-> r.calls]]]
+ReCaseRow(v) ==
+  LET prog == ReCaseProg(v) IN
+  [k |-> "recase", shape |-> "recase", ks |-> <<v>>, prog |-> prog, fns |-> Host,
+   runs |-> ReCaseRuns(prog, "print"), runsnone |-> ReCaseRuns(prog, "none"), done |-> TRUE]
+
 Init == \/ row = [k |-> "sv0", shape |-> "switchval", done |-> FALSE]
+        \/ row = [k |-> "rc0", shape |-> "recase", done |-> FALSE]
         \/ \E sh \in {"nest2", "seq2", "nest3", "nestseq"}, k1 \in 1..NKinds :
              row = [k |-> "flow0", shape |-> sh, k1 |-> k1, done |-> FALSE]
         \/ \E o1 \in 1..NTail : row = [k |-> "tail0", shape |-> "tail", o1 |-> o1, done |-> FALSE]
 
 Next ==
   /\ ~row.done
-  /\ \/ /\ row.shape = "switchval"
+  /\ \/ /\ row.shape = "recase"
+        /\ \E v \in 1..3 : row' = ReCaseRow(v)
+     \/ /\ row.shape = "switchval"
         /\ \E v \in 1..5 : row' = SwitchValRow(v)
      \/ /\ row.shape = "tail"
         /\ \E o2 \in 1..NTail, leaf \in BOOLEAN : row' = TailRow(row.o1, o2, leaf)
